@@ -38,6 +38,8 @@ class Exec(CMixin, ExprMixin, StmtMixin, CallMixin):
         self.worklist = []
         self.feas = z3.Solver()
         self.feas.set('timeout', feas_timeout)
+        self._feas_timeout = feas_timeout
+        self._feas_ids = None
         self.max_iter = max_iter
         self.check_overflow = True
         self.cur_state = None
@@ -102,10 +104,30 @@ class Exec(CMixin, ExprMixin, StmtMixin, CallMixin):
 
     # ------------------------------------------------------------------ decisions
     def is_feasible(self, st, extra):
+        """pc + guards + extra satisfiable?  (`unknown` counts as feasible.)  The solver is kept in
+        step with the path condition: only formulas added since the last query are asserted."""
+        ids = getattr(self, '_feas_ids', None)
+        pc = st.pc
+        n = 0
+        if ids is not None:
+            m = min(len(ids), len(pc))
+            while n < m and ids[n] == pc[n].get_id():
+                n += 1
+            if n < len(ids):
+                ids = None
+        if ids is None:
+            self.feas.reset()
+            self.feas.set('timeout', self._feas_timeout)
+            ids = self._feas_ids = []
+            n = 0
+        for f in pc[n:]:
+            # quantified facts (invariants, axioms) are left out: dropping hypotheses can only make
+            # more branches look feasible, never prune a feasible one
+            if not has_quantifier(f):
+                self.feas.add(f)
+            ids.append(f.get_id())
         self.feas.push()
         try:
-            for f in st.pc:
-                self.feas.add(f)
             for g in self.guards:
                 self.feas.add(g)
             self.feas.add(extra)
@@ -247,7 +269,10 @@ class Exec(CMixin, ExprMixin, StmtMixin, CallMixin):
         self.frame.ghost = {}
         if contract is not None:
             for g, text in contract.bind.items():
-                self.frame.ghost[g] = self.eval_spec(text, st)
+                gv = self.eval_spec(text, st)
+                self.frame.ghost[g] = gv
+                for d in getattr(gv, 'defs', ()):
+                    st.assume(d)
             for r in contract.requires:
                 e = self.eval_spec(r, st)
                 if e is False:
